@@ -15,6 +15,7 @@ import sys
 
 from .. import facts, hirq, symx
 from ..symx import op, var, const, render
+from ..rules import norm
 
 sys.path.insert(0, os.path.join(facts.VERIF, "reference"))
 import kernels as ref  # noqa: E402
@@ -44,6 +45,32 @@ def substitute(e, mapping):
     if e[0] == "op":
         return op(e[1], *[substitute(a, mapping) for a in e[2:]])
     return e
+
+
+def name_hash_iterates_bytes(ctx, mpq, pid):
+    """the name hashes consume the *bytes* of the name (a code point >= 0x80 is several bytes in every other implementation)"""
+    R = ctx.rule("%s.name-hashes-consume-bytes" % pid, "hash_string and the Jenkins name hashes iterate over the name's bytes (as_bytes / bytes / a byte slice), never over chars", floor=2)
+    for f in mpq.fn_list:
+        if f.kind == "Closure" or not f.hir or "::tests::" in f.path:
+            continue
+        p_ = norm(f.path)
+        if not re.search(r"crypto::hash::hash_string$|crypto::(jenkins|hash)::\w*(jenkins|hashlittle)\w*$|crypto::jenkins::\w+$", p_):
+            continue
+        pnames = [b for p__ in f.hir["params"] for b in hirq.pat_binds(p__)]
+        for lp in hirq.find(f.hir["body"], "for"):
+            it = hirq.render(lp["iter"])
+            if not any(nm in it for nm in pnames):
+                # a loop over something derived earlier from the parameter (e.g. a normalised copy)
+                lets = {l["pat"]["name"]: hirq.render(l["init"]) for l in hirq.find(f.hir["body"], "let") if l["pat"].get("k") == "bind" and l.get("init") is not None}
+                it = " ".join([it] + [v for k, v in lets.items() if k in it])
+            if not re.search(r"as_bytes\(\)|\.bytes\(\)|chars\(\)|char_indices\(\)|encode_utf16|\.iter\(\)|chunks", it) and not any(nm in it for nm in pnames):
+                continue
+            ctx.saw_fn(f)
+            if re.search(r"chars\(\)|char_indices\(\)|encode_utf16", it):
+                ctx.bad(R, "%s|iterates-chars" % p_.split("::")[-1], "%s:%d" % (f.file, lp["ln"]), "`for .. in %s` walks Unicode scalar values" % it[:60],
+                        "a name containing a byte >= 0x80 (UTF-8 or a legacy code page) is hashed from one truncated code point per character instead of from its bytes: slot, verification hashes and file key differ from every other implementation's")
+            elif re.search(r"as_bytes\(\)|\.bytes\(\)|chunks|\.iter\(\)", it) or any(nm in it for nm in pnames):
+                ctx.ok(R, {"fn": p_, "iterates": it[:60]})
 
 
 def run(ctx):
@@ -80,6 +107,7 @@ def run(ctx):
         else:
             ctx.ok(R_tab, {"table": path, "entries": len(got), "first": hex(got[0])})
 
+    name_hash_iterates_bytes(ctx, mpq, "C04")
     # hash_string
     hf = mpq.fns.get(P + "hash::hash_string")
     if hf is None:
@@ -204,6 +232,52 @@ def run(ctx):
             else:
                 ctx.ok(R_wrap, {"wrapper": path, "kernel_calls": v[0], "tail_calls": v[1]})
 
+    # early-return guards of the wrappers agree for every (length, key) class
+    R_guard = ctx.rule("C04.wrapper-guards-agree", "the byte wrappers skip the cipher for exactly the same (length, key) classes: lengths 0..5 × key zero/non-zero", floor=2)
+    from .c10 import _bval, _NoEval
+    gtabs = {}
+    for path, _kern in wrappers:
+        f = mpq.fns.get(path)
+        if f is None or not f.hir:
+            continue
+        pnames = [b for p_ in f.hir["params"] for b in hirq.pat_binds(p_)]
+        dname = next((n_ for n_ in pnames if n_ in ("data", "buf", "buffer", "bytes")), None) or next((n_ for n_ in pnames if n_ not in ("self", "key")), None)
+        blk = hirq.strip(f.hir["body"])
+        guard = None
+        for st in (blk.get("stmts", []) if blk.get("k") == "block" else [])[:3]:
+            if st.get("k") == "if" and any(x.get("k") == "ret" for x in hirq.walk(st["then"])) and st.get("else") is None:
+                guard = st
+                break
+        tab = {}
+        for n_ in range(0, 6):
+            for kz in (0, 1):
+                if guard is None:
+                    tab[(n_, kz)] = False
+                    continue
+                try:
+                    tab[(n_, kz)] = _bval(guard["c"], {"__leaf__": (lambda r_, n_=n_, kz=kz: n_ if r_.endswith(".len()") else (kz if r_ == "key" else None))}, {})
+                except _NoEval:
+                    tab = None
+                    break
+            if tab is None:
+                break
+        gtabs[path] = (tab, guard)
+    known = {p_: t_ for p_, (t_, _g) in gtabs.items() if t_ is not None}
+    if known:
+        from collections import Counter
+        maj = Counter(tuple(sorted(t_.items())) for t_ in known.values()).most_common(1)[0][0]
+        for p_, t_ in sorted(known.items()):
+            g_ = gtabs[p_][1]
+            if tuple(sorted(t_.items())) == maj:
+                ctx.ok(R_guard, {"wrapper": p_, "guard": hirq.render(g_["c"])[:60] if g_ else "none", "skips": sorted(k_ for k_, v_ in t_.items() if v_)[:6]})
+            else:
+                diff = [k_ for k_ in t_ if dict(maj)[k_] != t_[k_]]
+                ctx.bad(R_guard, "%s|guard" % p_.split("::")[-1], "%s:%d" % (mpq.fns[p_].file, g_["ln"] if g_ else mpq.fns[p_].lo), "guard `%s` differs from its siblings for (len, key≠0) = %s" % (hirq.render(g_["c"])[:60] if g_ else "none", diff[:4]),
+                        "for those lengths one side runs the cipher and the other returns early: decrypt(encrypt(x)) != x (a 1–3 byte file or final sector)")
+    for p_, (t_, g_) in gtabs.items():
+        if t_ is None:
+            ctx.note_unarmed(R_guard, p_, "guard not a pure predicate over length and key")
+
     # jenkins
     oa = mpq.fns.get(P + "jenkins::jenkins_one_at_a_time")
     if oa is None:
@@ -284,6 +358,64 @@ def run(ctx):
             ctx.bad(R_jen, "hashlittle2|mix", hl.where, "mix loop not recognised", "shape changed")
         if not finald and not any(v.key == "hashlittle2|final" for v in ctx.violations):
             ctx.bad(R_jen, "hashlittle2|final", hl.where, "final block not recognised", "shape changed")
+        # tail: for a remainder of n bytes, byte i (< n) is added into "abc"[i // 4] at bit 8 * (i % 4) — lookup3's little-endian tail
+        R_tail3 = ctx.rule("C04.lookup3-tail-places-every-byte", "in hashlittle2's remainder switch every arm adds byte i of the last block to word i/4 at shift 8·(i mod 4), for all i below the remainder", floor=12)
+        for m_ in hirq.find(body, "match"):
+            arms = [(hirq.lit_int({"k": "lit", "v": a["pat"].get("v", {})}) if a["pat"].get("k") == "lit" else None, a) for a in m_["arms"]]
+            if sum(1 for n_, _ in arms if n_ is not None and 1 <= n_ <= 12) < 8:
+                continue
+            for n_, arm in arms:
+                if n_ is None or not (1 <= n_ <= 12):
+                    continue
+                placed = {}       # byte index -> (word, shift)
+                problems = []
+                for st in hirq.walk(arm["body"]):
+                    if st.get("k") not in ("assign", "assignop"):
+                        continue
+                    tgt = hirq.strip(st["l"])
+                    if tgt.get("k") != "path" or tgt["res"].get("local") not in ("a", "b", "c"):
+                        continue
+                    word = "abc".index(tgt["res"]["local"])
+
+                    def byte_index(e):
+                        e = hirq.strip(e)
+                        while e.get("k") == "cast":
+                            e = hirq.strip(e["e"])
+                        if e.get("k") == "index" and hirq.lit_int(e["i"]) is not None:
+                            return hirq.lit_int(e["i"])
+                        return None
+                    for x in hirq.walk(st["r"]):
+                        if x.get("k") == "call" and (x.get("fn") or "").endswith("from_le_bytes") and x.get("args"):
+                            arr = hirq.strip(x["args"][0])
+                            if arr.get("k") == "array":
+                                for j, e in enumerate(arr["es"]):
+                                    bi = byte_index(e)
+                                    if bi is not None:
+                                        placed.setdefault(bi, []).append((word, 8 * j))
+                        elif x.get("k") == "bin" and x["op"] == "<<" and byte_index(x["l"]) is not None and hirq.lit_int(x["r"]) is not None:
+                            placed.setdefault(byte_index(x["l"]), []).append((word, hirq.lit_int(x["r"])))
+                    # a bare `last_block[i] as u32` operand (shift 0)
+                    top = hirq.strip(st["r"])
+                    cands = [top] + [hirq.strip(a_) for c_ in hirq.walk(st["r"]) if c_.get("k") == "mcall" and c_["m"] == "wrapping_add" for a_ in c_["args"]]
+                    for cnd in cands:
+                        bi = byte_index(cnd)
+                        if bi is not None and cnd.get("k") in ("cast", "index"):
+                            placed.setdefault(bi, []).append((word, 0))
+                for i_ in range(n_):
+                    want = (i_ // 4, 8 * (i_ % 4))
+                    got = placed.get(i_)
+                    if not got:
+                        problems.append("byte %d is not added" % i_)
+                    elif any(g != want for g in got):
+                        problems.append("byte %d goes to word %s at shift %d (lookup3: word %s, shift %d)" % (i_, "abc"[got[0][0]], got[0][1], "abc"[want[0]], want[1]))
+                for i_, got in placed.items():
+                    if i_ >= n_ and any(g != (i_ // 4, 8 * (i_ % 4)) for g in got):
+                        problems.append("padding byte %d misplaced" % i_)
+                if problems:
+                    ctx.bad(R_tail3, "hashlittle2|tail|%d" % n_, "%s:%d" % (hl.file, arm["ln"]), "remainder %d: %s" % (n_, "; ".join(problems[:2])),
+                            "names whose folded length leaves this remainder hash differently from lookup3: HET/BET entries written by other tools are not found (and vice versa)")
+                else:
+                    ctx.ok(R_tail3, {"remainder": n_, "bytes_placed": n_})
         lits = {x["v"]["int"] for x in hirq.find(body, "lit") if "int" in x["v"]}
         if ref.LOOKUP3_INIT in lits:
             ctx.ok(R_jen, {"kernel": "lookup3 init", "const": hex(ref.LOOKUP3_INIT)})
